@@ -3,13 +3,13 @@ module verif/harness
 go 1.18
 
 require (
+	github.com/VictoriaMetrics/fastcache v1.5.7
 	github.com/ethereum/go-ethereum v1.9.15
 	github.com/gogo/protobuf v1.3.2
 	github.com/kardiachain/go-kardia v0.0.0
 )
 
 require (
-	github.com/VictoriaMetrics/fastcache v1.5.7 // indirect
 	github.com/aristanetworks/goarista v0.0.0-20190712234253-ed1100a1c015 // indirect
 	github.com/beorn7/perks v1.0.1 // indirect
 	github.com/btcsuite/btcd v0.21.0-beta // indirect
